@@ -70,7 +70,7 @@ func recoverPanic(f func()) (panicked bool, msg string) {
 	defer func() {
 		if r := recover(); r != nil {
 			panicked = true
-			msg = fmt.Sprint(r)
+			msg = panicText(r)
 		}
 	}()
 	f()
